@@ -287,4 +287,35 @@ Section Adapter.
       + exact (dict_cands_wf lexs params bow t p m Hall Hb Ht Hp Hin).
       + exact (Hoov p m Hin).
   Qed.
+
+  (* the candidate source of build_lattice: the loop visits the character positions 0 .. n-1 only *)
+  Definition lattice_cands lexs params bow t (oov : nat -> list node) (p : nat) : list node :=
+    if p <? PP.nchars t then dict_cands lexs params bow t p ++ oov p else [].
+  Definition lattice_fallback t (fallback : nat -> option node) (p : nat) : option node :=
+    if p <? PP.nchars t then fallback p else None.
+
+  (* C02's optimality theorem for the tokenizer loop with the dictionary half of its hypothesis discharged: the lattice built
+     from lookup results of certified lexicons plus any well-formed OOV candidates yields the minimum cost over all chains of
+     offered candidates *)
+  Theorem build_optimal_with_dictionary conn lexs params bow t oov fallback L r i c :
+    (forall L0, In L0 lexs -> lex_keys_utf8 L0) -> bytes t -> chars_ok t ->
+    (forall p m, p < PP.nchars t -> In m (oov p) -> node_wf (PP.nchars t) p m) ->
+    (forall p f, p < PP.nchars t -> fallback p = Some f -> node_wf (PP.nchars t) p f) ->
+    0 < PP.nchars t ->
+    build conn (lattice_cands lexs params bow t oov) (lattice_fallback t fallback) (PP.nchars t) = Some (L, (r, i, c)) ->
+    (exists p, chainP (Offered (lattice_cands lexs params bow t oov) (lattice_fallback t fallback)) 0 (PP.nchars t) p
+               /\ path_cost conn p = c) /\
+    (forall p, chainP (Offered (lattice_cands lexs params bow t oov) (lattice_fallback t fallback)) 0 (PP.nchars t) p ->
+               (c <= path_cost conn p)%Z).
+  Proof.
+    intros Hall Hb Ht Hoov Hfb Hn Hbuild.
+    refine (build_optimal conn (lattice_cands lexs params bow t oov) (lattice_fallback t fallback) (PP.nchars t) _ L r i c Hn Hbuild).
+    intros p m Hin. unfold offered, lattice_cands, lattice_fallback in Hin.
+    destruct (p <? PP.nchars t) eqn:Ep; [|contradiction]. apply Nat.ltb_lt in Ep.
+    destruct (dict_cands lexs params bow t p ++ oov p) as [|c0 cs] eqn:Ec.
+    - destruct (fallback p) as [f|] eqn:Ef; [|contradiction]. destruct Hin as [<-|[]]. exact (Hfb p f Ep Ef).
+    - rewrite <- Ec in Hin. apply in_app_or in Hin. destruct Hin as [Hin|Hin].
+      + exact (dict_cands_wf lexs params bow t p m Hall Hb Ht Ep Hin).
+      + exact (Hoov p m Ep Hin).
+  Qed.
 End Adapter.
